@@ -20,7 +20,7 @@ STUBS = ["scipy.signal.find_peaks -> _local_maxima_1d transcription", "termcolor
 ASSUMPTIONS = ["floats as reals", "the peak of the mean curve within the search range is the one C08 defines (HvsrCurve._find_peak_bounded)"]
 OUTSIDE = ["curves without a peak in the search range (the property quantifies over curves with a peak)", "more than 5-6 frequency points"]
 BOUNDS = {"quick": {"frequency_points": 4, "grids": 2}, "thorough": {"frequency_points": "4-5", "grids": 4}}
-INSTANCE_TIMEOUT = {"quick": 160, "thorough": 1700}
+INSTANCE_TIMEOUT = {"quick": 160, "thorough": 700}
 GRIDS = {"e": [1, 5, 6, 30], "a": [1, 2, 3, 5], "b": [1, 1.5, 4, 9], "c": [1, 2, 3, 4, 6], "d": [1, 1.5, 2, 5, 9]}
 _L = None
 
